@@ -7,6 +7,7 @@ import (
 	"os"
 	"os/exec"
 	"path/filepath"
+	"sort"
 	"strings"
 	"sync"
 	"time"
@@ -168,6 +169,21 @@ func (w *World) BuildScript(ob *Obligation, forCVC5 bool) string {
 	}
 	if used["aelemref"] {
 		sb.WriteString("(declare-fun aelemidx (Ref) Int)\n(assert (forall ((b Ref) (i Int)) (! (and (= (addrtag (aelemref b i)) (- 2)) (= (addrbase (aelemref b i)) b) (= (aelemidx (aelemref b i)) i) (= (born (aelemref b i)) (born b))) :pattern ((aelemref b i)))))\n")
+	}
+	// package-level variables: their addresses are non-nil, pairwise distinct, exist from the start and are not
+	// field or element addresses of anything
+	var globs []string
+	for s, a := range w.addr {
+		if a.Kind == "global" && used[s] {
+			globs = append(globs, s)
+		}
+	}
+	sort.Strings(globs)
+	for _, g := range globs {
+		fmt.Fprintf(&sb, "(assert (and (not (= %s nil)) (<= (born %s) 1) (= (addrtag %s) 0)))\n", g, g, g)
+	}
+	if len(globs) > 1 {
+		fmt.Fprintf(&sb, "(assert (distinct %s))\n", strings.Join(globs, " "))
 	}
 	for _, f := range w.strLitFacts(used) {
 		sb.WriteString(f)
